@@ -157,6 +157,13 @@ def handle : List String → String
     | some form, some ht, some idx, some nOuts =>
       if Expect.helperErrs form ht idx nOuts then "err" else "ok"
     | _, _, _, _ => "bad-op"
+  | ["legacyvec", tx, idx, ht, script, want] =>
+    match tx? tx, idx.toNat?, u32? ht, hexToList? script with
+    | some tx, some idx, some ht, some script =>
+      match Spec.legacySigHash sha script ht tx idx with
+      | some d => if listToHex d == want then "match" else listToHex d
+      | none => "err"
+    | _, _, _, _ => "bad-op"
   | [op, tx, idx, ht, script] =>
     if op == "legacy" || op == "legacyapi" then
       match tx? tx, idx.toNat?, u32? ht, hexToList? script with
